@@ -1,4 +1,5 @@
 """C02 - every emitted stub file is syntactically valid Safe-DS."""
+from harness.zoo import N_FUN_SHAPES
 from vlib.plan import CH, K
 
 FUNCTIONS = [
@@ -62,8 +63,8 @@ def plan(tier):
     parts = [f"0:{c},1:{s},2:{r}" for c in range(2) for s in range(2) for r in range(3)]
     sparts = [f"0:{r}" for r in range(3)]
     if tier == "thorough":
-        parts = [f"0:{c},1:{s},2:{r},3:{f}" for c in range(2) for s in range(2) for r in range(3) for f in range(13)]
-        sparts = [f"0:{r},1:{f}" for r in range(3) for f in range(13)]
+        parts = [f"0:{c},1:{s},2:{r},3:{f}" for c in range(2) for s in range(2) for r in range(3) for f in range(N_FUN_SHAPES + 1)]
+        sparts = [f"0:{r},1:{f}" for r in range(3) for f in range(N_FUN_SHAPES + 1)]
     return [
         K("k_keyword", "kjobs.c02", "keyword_kernel", "keyword escape kernel vs oracle keyword list"),
         K("k_convert", "kjobs.c02", "convert_legal", "converted names are legal identifiers", timeout=1800),
